@@ -1,6 +1,7 @@
 (* C08 non-vacuity: concrete values meeting the hypotheses of the theorems. *)
 From V Require Import Common.Base C08.SortPerm C08.Comparators C08.CmpTheory C08.ComparatorProofs
-  C08.Dfs C08.Serializer gen.MapSitesGen C08.MapSites.
+  C08.Dfs C08.Serializer gen.MapSitesGen C08.MapSites C08.Diagnostics C08.Scanner C08.ScannerProofs
+  C08.Consumers gen.SortKeysGen C08.CollectSort.
 From Coq Require Import Permutation Sorted.
 
 (* sorting refs that arrived in two different orders gives one result *)
@@ -66,3 +67,44 @@ Example ex_sites_count : length map_sites = 63%nat. Proof. vm_compute. reflexivi
 Example ex_sites_sorted : existsb (fun s => match class_of s with Some (SortedAfter _) => true | _ => false end) map_sites = true.
 Proof. vm_compute. reflexivity. Qed.
 Example ex_no_stale : stale_entries = []. Proof. vm_compute. reflexivity. Qed.
+
+(* ---- deepening round ---- *)
+(* diagnostics: a location-less message and two located ones, arriving in two orders *)
+Definition dA := mkMsg None 0 [110].
+Definition dB := mkMsg (Some (mkLoc [47;97] [97] 2 0)) 1 [119].
+Definition dC := mkMsg (Some (mkLoc [47;97] [97] 1 5)) 0 [101].
+Example ex_diag_perm : Permutation [dA; dB; dC] [dC; dA; dB].
+Proof. apply Permutation_sym. apply (Permutation_cons_append [dA; dB] dC). Qed.
+Example ex_diag_locless : filter locless [dA; dB; dC] = filter locless [dC; dA; dB]. Proof. reflexivity. Qed.
+Example ex_diag_keys : forall a b, In a [dA; dB; dC] -> In b [dA; dB; dC] -> locless a = false -> msg_key a = msg_key b -> a = b.
+Proof. intros a b [<-|[<-|[<-|[]]]] [<-|[<-|[<-|[]]]] H1 H2; try reflexivity; try discriminate. Qed.
+Example ex_diag_result : isort msg_less [dA; dB; dC] = [dA; dC; dB] /\ isort msg_less [dC; dA; dB] = [dA; dC; dB].
+Proof. split; vm_compute; reflexivity. Qed.
+
+(* scanner: entry points 10 -> 1 and 20 -> 2 (runtime 0); in schedule 1 file 1
+   gets index 3 and file 2 index 4, in schedule 2 the other way round; the
+   stable order, read back as files, is the same *)
+Example ex_scan_runs :
+  match run_scan ex_imports (fst (scan_init ex_roots)) ex_sched1, run_scan ex_imports (fst (scan_init ex_roots)) ex_sched2 with
+  | Some s1, Some s2 =>
+      scan_complete s1 && scan_complete s2
+      && (index_of_file s1 1 =? 3) && (index_of_file s1 2 =? 4) && (index_of_file s2 1 =? 4) && (index_of_file s2 2 =? 3)
+      && option_eqb zlist_eqb (linker_order s1 5 ex_roots) (Some [0; 3; 1; 4; 2])
+      && option_eqb zlist_eqb (linker_order s2 5 ex_roots) (Some [0; 4; 1; 3; 2])
+      && option_eqb zlist_eqb (reach_order 5 ex_imports ex_roots) (Some [0; 1; 10; 2; 20])
+  | _, _ => false
+  end = true.
+Proof. vm_compute. reflexivity. Qed.
+(* a result cannot be received twice, nor before the file was discovered *)
+Example ex_scan_blocked : run_scan ex_imports (fst (scan_init ex_roots)) [1] = None /\
+                          run_scan ex_imports (fst (scan_init ex_roots)) [10; 10] = None.
+Proof. split; vm_compute; reflexivity. Qed.
+
+(* collect-then-sort with the model sort as sorter *)
+Example ex_collect_is_sort : IsSort str_ltb (isort str_ltb).
+Proof. apply isort_is_sort. exact (via_key_strict_weak (fun x => x) _ good_str _ str_ltb_spec). Qed.
+Example ex_collect : collect_then_sort (isort str_ltb) [] (fun k : list Z => k) [[98]; [97; 97]; [97]]
+                   = collect_then_sort (isort str_ltb) [] (fun k : list Z => k) [[97]; [98]; [97; 97]].
+Proof. vm_compute. reflexivity. Qed.
+Example ex_regular_count : length regular_collect_sort_sites = 21%nat. Proof. vm_compute. reflexivity. Qed.
+Example ex_key_inits_count : length stable_key_inits = 6%nat /\ length sorted_append_exprs = 26%nat. Proof. split; vm_compute; reflexivity. Qed.
